@@ -35,6 +35,7 @@ fn run_child(harness: &str, cfg: Value) {
         "c06" => Box::new(move || harness::uow::c06(&cfg)),
         "c10" => Box::new(move || harness::agg::c10(&cfg)),
         "c10_mutex" => Box::new(move || harness::agg::c10_mutex(&cfg)),
+        "c11_shared" => Box::new(move || harness::agg::c11_shared(&cfg)),
         "c17" => Box::new(move || harness::global::c17(&cfg)),
         "c20" => Box::new(move || harness::bridge::c20(&cfg)),
         "c20_describe" => Box::new(move || harness::bridge::c20_describe(&cfg)),
